@@ -46,6 +46,8 @@ PROGS = [
     "trace(cmd, level=2, *args)\nlog(a, *b, k=c, **d)\nrun(x)\nn()",
     "t(k=1, *a, *b, j=2)\nu(*v, w, x=y)  # c8\nz = p(q, r=s(*t, u=v, *w), **k)",
     "t = sum(x for x in xs)\nu = f((y for y in ys), z)\nv = any(\n    w for w in ws\n)",
+    # one name in every expression context (the ctx parameter decides whether a context instance in the pattern is compared)
+    "x = x + 1\ndel x, y\nfor x in x: pass\nz = [x for x in w if x]\nwith a as x: x",
 ]
 for _p in PROGS:
     ast.parse(_p)
@@ -127,7 +129,14 @@ def rules(M):
                       lambda n: ast.BinOp(left=n, op=ast.Add(), right=T(ast.Constant(value=0)), _tmpl=True), '(__FST_ +\n 0)', False)
     R['def->wrapper'] = (M.MFunctionDef(args=M.M(a=...)), lambda n: isinstance(n, ast.FunctionDef), wrapper,
                          'def wrapper(__FST_a):\n    return impl(__FSS_a)', False)
+    # a plain-AST pattern carrying an expression-context INSTANCE: compared only when sub(..., ctx=True)
+    R['name-x-ctx'] = (ast.Name(id='x', ctx=ast.Load()),
+                       lambda n: isinstance(n, ast.Name) and n.id == 'x' and (not CTX[0] or isinstance(n.ctx, ast.Load)),
+                       lambda n: ast.Subscript(value=n, slice=T(ast.Constant(value=0)), ctx=ast.Load(), _tmpl=True), '__FST_[0]', False)
     return R
+
+
+CTX = [False]
 
 
 class Ref:
@@ -212,6 +221,11 @@ def settings(rule):
     if rule == 'call-unwrap':
         yield dict(nested=False, count=0, on='enter', loop=2, back=False)
         yield dict(nested=False, count=0, on='enter', loop=3, back=False)
+    if rule == 'name-x-ctx':
+        for ctx in (False, True):
+            for count in (0, 2):
+                for back in (False, True):
+                    yield dict(nested=False, count=count, on='enter', loop=False, back=back, ctx=ctx)
 
 
 def run_case(fst, M, pi, rname, st, res):
@@ -223,6 +237,12 @@ def run_case(fst, M, pi, rname, st, res):
     res.evals += 1
     res.transitions += 1
     tree = ast.parse(src)
+    st = dict(st)
+    ctx = st.pop('ctx', None)
+    CTX[0] = bool(ctx)
+    if rname == 'name-x-ctx' and ctx is None:
+        return  # the generic settings do not say which contexts count
+    kw = {} if ctx is None else {'ctx': ctx}
     ref = Ref(pred, build, whole, **st)
     try:
         want_tree = ref.visit(tree)
@@ -239,7 +259,7 @@ def run_case(fst, M, pi, rname, st, res):
     root = fst.FST(src, 'exec')
     try:
         with deadline(20):
-            out, unique, total = root.subn(pat, tmpl, st['nested'], count=st['count'], on=st['on'], loop=st['loop'], back=st['back'])
+            out, unique, total = root.subn(pat, tmpl, st['nested'], count=st['count'], on=st['on'], loop=st['loop'], back=st['back'], **kw)
     except CaseTimeout:
         res.fail(cid, 'hang', f'src={src!r}', params, rep)
         return
@@ -286,6 +306,17 @@ def run_case(fst, M, pi, rname, st, res):
             if c not in (O.comments(root.src) or []) and ref.unique == 0:
                 res.fail(cid, 'comment-lost-without-substitution', f'{c}', params, rep)
                 return
+    # sub() is subn() without the counts: same arguments, same tree
+    root2 = fst.FST(src, 'exec')
+    try:
+        pat2 = rules(M)[rname][0]
+        out2 = root2.sub(pat2, tmpl, st['nested'], count=st['count'], on=st['on'], loop=st['loop'], back=st['back'], **kw)
+        if out2 is not root2 or root2.src != root.src or O.dump_pos(root2.a) != O.dump_pos(root.a):
+            res.fail(cid, 'sub-differs-from-subn', f'src={src!r}\nsubn={root.src!r}\nsub ={root2.src!r}', params, rep)
+            return
+    except Exception as e:  # noqa: BLE001
+        res.fail(cid, 'sub-raised-where-subn-succeeded:' + e.__class__.__name__, f'src={src!r}\n{e!r}', params, rep)
+        return
     if rname == 'def->wrapper' and ref.unique:  # a second substitution on the substituted result must still be sound
         try:
             root.sub(M.MName(ctx=ast.Load), 'n(__FST_)')
@@ -305,7 +336,7 @@ def run_case(fst, M, pi, rname, st, res):
 
 RULE_NAMES = ['name->log', 'binop->f', 'binop-swap', 'call-unwrap', 'expr-identity', 'list-slice', 'dict-mid', 'if-swap', 'stmt-identity',
               'def->wrapper',
-              'call-args-tail', 'call-_args-tail', 'call-_args-init', 'genexp->list', 'genexp->or', 'name->par']
+              'call-args-tail', 'call-_args-tail', 'call-_args-init', 'genexp->list', 'genexp->or', 'name->par', 'name-x-ctx']
 
 
 def shards(tier):
